@@ -48,6 +48,7 @@ type idState struct {
 	prev      *instance   // the accepted instance before last
 	all       []*instance // every accepted instance, oldest first
 	lastNext  *instance   // instance of the last data message for the id, while no other message for the id followed
+	lastStop  *instance   // the instance the most recent client complete/stop of the id gave up
 	lateStops int         // client complete/stop taken while the id had no open instance but a terminated one
 	strayErr  int         // undecodable subscribes for the id: a server may answer each with one error(id), 4400, or not at all
 }
@@ -78,6 +79,7 @@ type machine struct {
 	pending      []*instance
 
 	findings     []finding
+	rejectedAt   int
 	inconclusive string
 
 	// evidence
@@ -179,6 +181,12 @@ func check(res *runResult) *machine {
 		case 'Z':
 			m.clientGone = true
 			m.label("C.gone")
+		}
+		if len(m.findings) > 0 {
+			// The machine rejects the trace at its first offending event. What follows is not judged:
+			// the machine's state no longer mirrors the server's.
+			m.rejectedAt = i
+			break
 		}
 	}
 	m.finish()
@@ -291,6 +299,7 @@ func (m *machine) clientStop(id string) {
 	for _, in := range st.open {
 		if !in.clientDone {
 			in.clientDone = true
+			st.lastStop = in
 			n++
 		}
 	}
@@ -570,7 +579,7 @@ func (m *machine) opMsg(i int, typ string, w wireMsg, raw string) {
 			}
 			return
 		}
-		in = m.attribute(st, typ, w)
+		in = m.attribute(st, typ, w, i)
 	}
 	if typ != "next" || !tokened {
 		st.lastNext = nil
@@ -664,7 +673,7 @@ func (m *machine) opMsg(i int, typ string, w wireMsg, raw string) {
 // return when (and only when) their context was cancelled, i.e. after the client gave the
 // operation up. Instances the client gave up may be dropped silently, so they are the last choice
 // for a message that can belong to a live one.
-func (m *machine) attribute(st *idState, typ string, w wireMsg) *instance {
+func (m *machine) attribute(st *idState, typ string, w wireMsg, at int) *instance {
 	if typ == "complete" && st.lastNext != nil {
 		return st.lastNext
 	}
@@ -684,6 +693,13 @@ func (m *machine) attribute(st *idState, typ string, w wireMsg) *instance {
 		if oldestDone != nil {
 			return oldestDone
 		}
+		// a live instance whose executor had seen its context cancelled by then (the engine cancels by
+		// id, and an id can have passed to a newer operation)
+		for k := len(st.open) - 1; k >= 0; k-- {
+			if t, ok := m.res.ops[st.open[k].token]; ok && t.Cancelled && t.CancelAt <= at {
+				return st.open[k]
+			}
+		}
 		for k := len(st.all) - 1; k >= 0; k-- {
 			if st.all[k].clientDone {
 				return st.all[k] // terminated already: a message after its terminal
@@ -696,6 +712,9 @@ func (m *machine) attribute(st *idState, typ string, w wireMsg) *instance {
 		}
 	case typ == "complete":
 		// no data before it: the answer to a client complete/stop
+		if st.lastStop != nil && !st.lastStop.terminated {
+			return st.lastStop
+		}
 		if oldestDone != nil {
 			return oldestDone
 		}
@@ -783,6 +802,9 @@ func (m *machine) serverClose(i int, e traceEv) {
 
 func (m *machine) finish() {
 	res := m.res
+	if len(m.findings) > 0 {
+		return
+	}
 	if res.settled && !m.closed {
 		m.resolvePending()
 	}
@@ -840,7 +862,8 @@ func (m *machine) finish() {
 			m.violate(end, "terminal.missing", fmt.Sprintf("the operation of step %d (id %s, %s) ended in the engine but the server sent no terminal message", tok, in.id, optypeName(in.kind)),
 				map[string]string{"optype": optypeName(in.kind)})
 		}
-		if in.seen < len(t.Emitted) && !t.Cancelled {
+		// data the executor produced after the server had reported the operation's failure is not owed
+		if in.seen < len(t.Emitted) && !t.Cancelled && !(in.terminated && in.termKind == "error") {
 			m.violate(end, "data.lost", fmt.Sprintf("the executor of step %d (id %s) produced %d data item(s), the client received %d", tok, in.id, len(t.Emitted), in.seen),
 				map[string]string{"optype": optypeName(in.kind)})
 		}
